@@ -1222,3 +1222,109 @@ class QuoteFamily(Family):
     @classmethod
     def bounded_source(cls, prog, fname):
         return 'csv', QUOTE_TEST % {'n': 4}, 'all strings up to length 4 over {a, single quote, double quote, e-acute, U+4E2D} x both quote characters x the three quote states'
+
+
+OPTIONS_TEST = '''package csv_test
+
+import (
+	"fmt"
+	"testing"
+	"time"
+
+	ctok "github.com/pip-services3-gox/pip-services3-expressions-gox/calculator/tokenizers"
+	"github.com/pip-services3-gox/pip-services3-expressions-gox/tokenizers"
+	"github.com/pip-services3-gox/pip-services3-expressions-gox/tokenizers/generic"
+)
+
+// C15 (bounded): for each of the 128 option sets the token stream must equal the option-free stream with whole
+// tokens removed or rewritten, as the statement describes; a tokenizer that does not return within 2 s hangs.
+type vtok struct { typ int; val string; line, col int }
+
+func vrun(mk func() tokenizers.ITokenizer, opts int, input string) ([]vtok, error) {
+	ch := make(chan []vtok, 1)
+	er := make(chan error, 1)
+	go func() {
+		defer func() { if r := recover(); r != nil { er <- fmt.Errorf("panic: %%v", r) } }()
+		tk := mk()
+		tk.SetSkipUnknown(opts&1 != 0); tk.SetSkipWhitespaces(opts&2 != 0); tk.SetSkipComments(opts&4 != 0); tk.SetSkipEof(opts&8 != 0)
+		tk.SetMergeWhitespaces(opts&16 != 0); tk.SetUnifyNumbers(opts&32 != 0); tk.SetDecodeStrings(opts&64 != 0)
+		var out []vtok
+		for _, t := range tk.TokenizeBuffer(input) { out = append(out, vtok{t.Type(), t.Value(), t.Line(), t.Column()}) }
+		ch <- out
+	}()
+	select {
+	case o := <-ch: return o, nil
+	case e := <-er: return nil, e
+	case <-time.After(2 * time.Second): return nil, fmt.Errorf("no result after 2s (hang)")
+	}
+}
+
+func TestVerifReplay(t *testing.T) {
+	mks := map[string]func() tokenizers.ITokenizer{
+		"generic": func() tokenizers.ITokenizer { return generic.NewGenericTokenizer() },
+		"expression": func() tokenizers.ITokenizer { return ctok.NewExpressionTokenizer() },
+	}
+	alphabet := []rune{'a', '1', ' ', '\\t', '"', '/', '*', '.', 0x1F600, '\\n', '<'}
+	var inputs []string
+	%(extra)s
+	var gen func(cur []rune, n int)
+	gen = func(cur []rune, n int) { inputs = append(inputs, string(cur)); if n == 0 { return }; for _, c := range alphabet { gen(append(cur, c), n-1) } }
+	gen(nil, %(maxlen)d)
+	inputs = append(inputs, "1 /*c*/ 2", "a /*c*/ /*d*/  b", "1\\U0001F600\\U0001F600 2", "'x' \\"y\\" 1.5 2", "a  /*c*/  b 'q''r'")
+	for name, mk := range mks {
+		quoteState := mk().QuoteState()
+		for _, in := range inputs {
+			raw, err := vrun(mk, 0, in)
+			if err != nil { t.Fatalf("%%s tokenizer, no options, input %%q: %%v", name, in, err) }
+			for opts := 1; opts < 128; opts++ {
+				got, err := vrun(mk, opts, in)
+				if err != nil { t.Fatalf("%%s tokenizer, options %%07b, input %%q: %%v", name, opts, in, err) }
+				// reference: drop / rewrite whole raw tokens
+				var want []vtok
+				last := tokenizers.Unknown
+				for _, r := range raw {
+					if r.typ == tokenizers.Unknown && opts&1 != 0 { continue }
+					if r.typ == tokenizers.Comment && opts&4 != 0 { continue }
+					if r.typ == tokenizers.Whitespace && last == tokenizers.Whitespace && opts&2 != 0 { continue }
+					if r.typ == tokenizers.Eof && opts&8 != 0 { continue }
+					w := r
+					if opts&64 != 0 && (r.typ == tokenizers.Quoted || (name == "expression" && r.typ == tokenizers.Word && len(r.val) > 0 && r.val[0] == '"')) {
+						w.val = quoteState.DecodeString(r.val, []rune(r.val)[0])
+					}
+					if r.typ == tokenizers.Whitespace && opts&16 != 0 { w.val = " " }
+					if opts&32 != 0 && (r.typ == tokenizers.Integer || r.typ == tokenizers.Float || r.typ == tokenizers.HexDecimal) { w.typ = tokenizers.Number }
+					want = append(want, w)
+					last = w.typ
+				}
+				if len(got) != len(want) { t.Fatalf("%%s tokenizer, options %%07b (bit0 skipUnknown, 1 skipWhitespaces, 2 skipComments, 3 skipEof, 4 merge, 5 unify, 6 decode), input %%q:\\n got  %%v\\n want %%v", name, opts, in, got, want) }
+				for i := range got {
+					if got[i] != want[i] { t.Fatalf("%%s tokenizer, options %%07b, input %%q: token %%d is %%v, the option-free stream gives %%v", name, opts, in, i, got[i], want[i]) }
+				}
+			}
+		}
+	}
+}
+'''
+
+
+@family(r'/tokenizers\.AbstractTokenizer\)\.')
+class OptionsFamily(TokenizerFamily):
+    def test_source(self, vals):
+        n = vals.get('n', 0)
+        extra = ''
+        if isinstance(n, int) and 0 < n <= self.MAXN:
+            extra = 'inputs = append(inputs, string(%s))' % go_runes(vals, 'r', n)
+        return 'csv', OPTIONS_TEST % {'extra': extra, 'maxlen': 3}
+
+    def inputs(self):
+        d = {'n': 'len(sc(c.Scanner).content)'}
+        for i in range(self.MAXN):
+            d['r%d' % i] = 'sc(c.Scanner).content[%d]' % i
+        return d
+
+    def bounds(self):
+        return ['len(sc(c.Scanner).content) <= %d' % self.MAXN]
+
+    @classmethod
+    def bounded_source(cls, prog, fname):
+        return 'csv', OPTIONS_TEST % {'extra': '', 'maxlen': 3}, 'all 128 option sets x every input up to length 3 over an 11-character alphabet (plus 5 longer inputs) x generic and expression tokenizers'
